@@ -182,6 +182,10 @@ pub(crate) mod verif_common {
         Vec::from_raw_parts_in(ptr, length, capacity, std::alloc::Global)
     }
 
+    // std::thread::panicking(): a chunk, a buffered iterator or the iterator itself may be dropped while the consumer's thread unwinds
+    // (Kani itself never unwinds); what the machinery destroys must not depend on it
+    pub fn any_panicking() -> bool { kani::any() }
+
     // ---- drop ledger ----
     pub const LN: usize = 6;
     pub struct Ledger(pub UnsafeCell<[u8; LN]>);
